@@ -24,6 +24,11 @@ func run(c *hlib.Ctx) {
 		g := cyclicPrism(c)
 		chain3With(c, g, 5)
 	}
+	// thin, edge-subdivided surfaces: FlipDelaunay runs through needle triangles (cosines that round
+	// outside [-1, 1]); then a chain
+	for i := 0; i < 24+c.N/15; i++ {
+		chain3With(c, needleMesh(c), 5)
+	}
 	// gently curved outlines: EliminateColinear with an epsilon just above / below the turn per vertex
 	for i := 0; i < 20+c.N/10; i++ {
 		g, eps := arcOutline(c)
@@ -81,6 +86,28 @@ func run(c *hlib.Ctx) {
 		emitArapLin(c, st, st.ids.meshFromSoup(st.soup), st.exact)
 		linPair = -1
 	}
+	// the control loop of ARAP on models of every size (2^0 .. 2^-40), handles moved by one rigid
+	// motion / moved freely / pinned; Laplace or warm start
+	for i := 0; i < 30+c.N/6; i++ {
+		g := pickGen3(c)
+		for tries := 0; (g.m.NumTriangles() > 236 || strings.HasPrefix(g.label, "multi")) && tries < 40; tries++ {
+			g = pickGen3(c)
+		}
+		if g.m.NeedsRepair() || len(g.m.SingularVertices()) > 0 || g.m.NumTriangles() > 236 {
+			c.Stat("gen3-rejected:"+g.label, 1)
+			continue
+		}
+		st := &state3{ids: newIDs3(), exact: g.exact}
+		st.soup = st.ids.soup(g.m)
+		nv := len(usedIDs3(st.soup))
+		if nv > 120 || nv < 4 || components3(st.soup) != 1 {
+			continue
+		}
+		c.Stat("gen3:"+strings.SplitN(g.label, "(", 2)[0], 1)
+		loopRigidSmall = i%2 == 0
+		emitArapLoop(c, st, st.ids.meshFromSoup(st.soup))
+		loopRigidSmall = false
+	}
 	n3 := c.N * 2 / 3
 	for i := 0; i < n3; i++ {
 		chain3(c)
@@ -112,8 +139,35 @@ func chain3With(c *hlib.Ctx, g mesh3, firstOp int) {
 	st.soup = st.ids.soup(g.m)
 	emitLine(c, "init3", "P 0", "I", soupStr3(st.soup), "O", soupStr3(st.soup), "K 0")
 	nops := 1 + c.Rng.Intn(6)
+	if strings.HasPrefix(g.label, "needle(caps") {
+		// a cap's apex lies within rounding of the opposite edge: an input for FlipDelaunay (which makes
+		// such faces itself), not for operations that divide by the area (cotangents, normals)
+		nops = 1
+	}
+	// A chain is a Go program `m1 := op(m0); m2 := op(m1); m3 := op(m1); m4 := op(m0) ...` over REAL mesh
+	// objects: vars are the variables of the program (the object, and the mesh value it denoted when it
+	// was created).  Every instruction takes the newest variable or (one step in three) ANY earlier
+	// variable as its source - a mesh is used again after it was handed to an operation.  In one step
+	// of three the object is rebuilt from the soup instead of being the object the program holds.
+	vars := []var3{{nil, st.soup, st.exact, st.flat, 0}}
 	for i := 0; i < nops; i++ {
-		m := st.ids.meshFromSoup(st.soup)
+		src := len(vars) - 1
+		if len(vars) > 1 && c.Rng.Intn(3) == 0 {
+			src = c.Rng.Intn(len(vars) - 1)
+		}
+		v := &vars[src]
+		st.soup, st.exact, st.flat = v.soup, v.exact, v.flat
+		m := v.obj
+		if m == nil || c.Rng.Intn(3) == 0 {
+			m = st.ids.meshFromSoup(v.soup)
+		} else {
+			c.Stat("program-step-on-a-real-object-of-the-program", 1)
+		}
+		v.obj = m
+		v.uses++
+		if v.uses > 1 {
+			c.Stat("program-uses-a-mesh-again-after-handing-it-to-an-operation", 1)
+		}
 		forced := -1
 		if i == 0 && firstOp >= 0 {
 			forced = firstOp
@@ -147,8 +201,13 @@ func chain3With(c *hlib.Ctx, g mesh3, firstOp int) {
 			emitLine(c, append(head, "O", r.status, "K 0", st.ids.coordSection(usedIDs3(st.soup)))...)
 			return
 		}
+		// the input object re-encoded AFTER the call: every operation here is documented to create a
+		// new mesh, so the variable the program passed in still denotes the same mesh (section A)
+		inputAfter := "A " + soupStr3(st.ids.soup(m))
+		c.Stat("input-object-re-encoded-after-the-call", 1)
 		if r.kind == "arap3" {
 			line, out := arapLine(c, st, r.params, r.cons, r.out)
+			line = insertBeforeCoords(line, inputAfter)
 			emitLine(c, line...)
 			if len(usedIDs3(out)) != len(usedIDs3(st.soup)) {
 				return
@@ -161,7 +220,7 @@ func chain3With(c *hlib.Ctx, g mesh3, firstOp int) {
 				c.Stat("chain-ended-numerically-collapsed:"+r.kind, 1)
 				return
 			}
-			st.soup, st.exact, st.flat = out, false, false
+			vars = append(vars, var3{r.out, out, false, false, 0})
 			continue
 		}
 		out := st.ids.soup(r.out)
@@ -190,7 +249,7 @@ func chain3With(c *hlib.Ctx, g mesh3, firstOp int) {
 			head = append(head, r.params...)
 			head = append(head, "I", soupStr3(st.soup))
 		}
-		line := append(head, "O", soupStr3(out), "K", intsStr(r.keep))
+		line := append(head, "O", soupStr3(out), "K", intsStr(r.keep), inputAfter)
 		if r.coords {
 			line = append(line, st.ids.coordSection(usedIDs3(st.soup, out)))
 			c.Stat("exact-geometry-checked:"+r.kind, 1)
@@ -220,8 +279,36 @@ func chain3With(c *hlib.Ctx, g mesh3, firstOp int) {
 		if moveOnly && len(usedIDs3(out)) != len(usedIDs3(st.soup)) {
 			return
 		}
-		st.soup, st.exact, st.flat = out, r.exact, r.flat
+		vars = append(vars, var3{r.out, out, r.exact, r.flat, 0})
 	}
+}
+
+// var3 / var2: a variable of the generated program - the real object, the mesh value it denoted when
+// it was created (what every later use is judged against), and how often it was a source.
+type var3 struct {
+	obj         *model3d.Mesh
+	soup        [][3]int
+	exact, flat bool
+	uses        int
+}
+
+type var2 struct {
+	obj         *model2d.Mesh
+	soup        [][2]int
+	exact, flat bool
+	uses        int
+}
+
+// insertBeforeCoords puts a section before the trailing `C …` section of a line (or at the end).
+func insertBeforeCoords(line []string, sec string) []string {
+	for i, tok := range line {
+		if strings.HasPrefix(tok, "C ") {
+			res := append([]string{}, line[:i]...)
+			res = append(res, sec)
+			return append(res, line[i:]...)
+		}
+	}
+	return append(line, sec)
 }
 
 // ---------------------------------------------------------------- 2-D
@@ -276,8 +363,25 @@ func runChain2(c *hlib.Ctx, g mesh2, nops int, forced []int) {
 	st := &state2{ids: newIDs2(), exact: g.exact, flat: g.exact}
 	st.soup = st.ids.soup(g.m)
 	emitLine(c, "init2", "P 0", "I", soupStr2(st.soup), "O", soupStr2(st.soup), "K 0")
+	vars := []var2{{nil, st.soup, st.exact, st.flat, 0}} // the variables of the program (see chain3With)
 	for i := 0; i < nops; i++ {
-		m := st.ids.meshFromSoup(st.soup)
+		src := len(vars) - 1
+		if forced == nil && len(vars) > 1 && c.Rng.Intn(3) == 0 {
+			src = c.Rng.Intn(len(vars) - 1)
+		}
+		v := &vars[src]
+		st.soup, st.exact, st.flat = v.soup, v.exact, v.flat
+		m := v.obj
+		if m == nil || c.Rng.Intn(3) == 0 {
+			m = st.ids.meshFromSoup(v.soup)
+		} else {
+			c.Stat("program-step-on-a-real-object-of-the-program", 1)
+		}
+		v.obj = m
+		v.uses++
+		if v.uses > 1 {
+			c.Stat("program-uses-a-mesh-again-after-handing-it-to-an-operation", 1)
+		}
 		bits := 60
 		if st.exact {
 			bits = fracBits2(m)
@@ -379,7 +483,8 @@ func runChain2(c *hlib.Ctx, g mesh2, nops int, forced []int) {
 			head = append(head, params...)
 			head = append(head, "I", soupStr2(st.soup))
 		}
-		line := append(head, "O", soupStr2(o), "K 0")
+		line := append(head, "O", soupStr2(o), "K 0", "A "+soupStr2(st.ids.soup(m)))
+		c.Stat("input-object-re-encoded-after-the-call", 1)
 		if coords {
 			line = append(line, st.ids.coordSection(usedIDs2(st.soup, o)))
 			if kind != "elimcolinear2" || (st.exact && st.flat) {
@@ -407,7 +512,7 @@ func runChain2(c *hlib.Ctx, g mesh2, nops int, forced []int) {
 			c.Stat("chain-ended-numerically-collapsed:"+kind, 1)
 			return
 		}
-		st.soup, st.exact, st.flat = o, exact, flat
+		vars = append(vars, var2{out, o, exact, flat, 0})
 	}
 }
 
